@@ -473,7 +473,7 @@ func cmdRun(args []string) int {
 	}
 	printStats(st, ld.loadS)
 	for i, f := range st.Failures {
-		if i < 10 {
+		if i < 10 || os.Getenv("GOSYM_ALLFAIL") != "" {
 			fmt.Printf("FAIL %s %s env=%v findings=%v\n", f.AssertID, f.Msg, f.Env, f.Findings)
 		}
 		if confirm && i < 3 {
